@@ -6,7 +6,8 @@
 (* (device).  Property C05.                                                *)
 (*                                                                         *)
 (* Per session the messages 65 (owner->device), 66 (device->owner), ...,   *)
-(* 71 are sent in order.  One message = three actions: Encrypt (the honest *)
+(* 71 are sent in order, the pair 68/69 any number of times (service info  *)
+(* rounds).  One message = three actions: Encrypt (the honest *)
 (* sender protects plaintext pt under the session keys and a fresh IV),    *)
 (* Wire (the network adversary may replace the object in flight by one of  *)
 (* the classes below), Decrypt (the receiver accepts a plaintext or        *)
@@ -30,6 +31,7 @@ CONSTANTS
     AdvSessions,            \* sessions whose messages the adversary rewrites
     Classes,                \* adversary classes in play
     MaxMut,                 \* mutations per session (model checking bound)
+    MaxRounds,              \* service-info rounds (68/69 pairs) per session (model checking bound)
     BareEncrypt0Accepted    \* BOOLEAN, see above
 
 VARIABLES
@@ -52,10 +54,11 @@ Form(c) == IF c \in AEAD THEN "enc0" ELSE "mac0"
 Dir(t) == IF t % 2 = 1 THEN "o2d" ELSE "d2o"
 
 AllClasses == {"flip_ct", "flip_iv", "flip_alg", "flip_tag", "strip_mac0", "strip_mac0+flip_ct", "strip_mac0+flip_iv",
-               "wrap_mac0", "retag", "drop_iv", "iv_len", "empty_ct", "truncate", "substitute", "plaintext", "bit_any"}
+               "strip_mac0+iv_len", "strip_mac0+empty_ct", "strip_mac0+truncate", "wrap_mac0", "retag", "drop_iv", "iv_len", "empty_ct", "truncate", "substitute", "plaintext", "bit_any"}
 (* classes that need a MAC wrapper / must not have one *)
 Applicable(c, cls) ==
-    CASE cls \in {"flip_tag", "strip_mac0", "strip_mac0+flip_ct", "strip_mac0+flip_iv"} -> c \notin AEAD
+    CASE cls \in {"flip_tag", "strip_mac0", "strip_mac0+flip_ct", "strip_mac0+flip_iv",
+                  "strip_mac0+iv_len", "strip_mac0+empty_ct", "strip_mac0+truncate"} -> c \notin AEAD
       [] cls = "wrap_mac0" -> c \in AEAD
       [] OTHER -> TRUE
 
@@ -64,7 +67,7 @@ NoMsg == [t |-> "nomsg"]
 NoTag == [t |-> "notag"]
 NoIV  == [t |-> "noiv"]
 IV(s, n) == [t |-> "iv", s |-> s, n |-> n]
-Pt(s, ty) == [t |-> "pt", s |-> s, ty |-> ty]
+Pt(s, n) == [t |-> "pt", s |-> s, n |-> n]
 Garbage == [t |-> "garbage"]
 Ct(k, iv, pt, aad) == [t |-> "ct", key |-> k, iv |-> iv, pt |-> pt, aad |-> aad]
 Body(o) == <<o.alg, o.iv, o.ct>>
@@ -87,6 +90,9 @@ Mutants(cls, o, others) ==
       [] cls = "strip_mac0"         -> {[o EXCEPT !.form = "enc0", !.tag = NoTag]}
       [] cls = "strip_mac0+flip_ct" -> {[o EXCEPT !.form = "enc0", !.tag = NoTag, !.ct = [t |-> "garbled", of |-> o.ct]]}
       [] cls = "strip_mac0+flip_iv" -> {[o EXCEPT !.form = "enc0", !.tag = NoTag, !.iv = [t |-> "flipped", of |-> o.iv]]}
+      [] cls = "strip_mac0+iv_len"  -> {[o EXCEPT !.form = "enc0", !.tag = NoTag, !.iv = [t |-> "badlen", of |-> o.iv]]}
+      [] cls = "strip_mac0+empty_ct" -> {[o EXCEPT !.form = "enc0", !.tag = NoTag, !.ct = [t |-> "emptyct"]]}
+      [] cls = "strip_mac0+truncate" -> {[o EXCEPT !.form = "enc0", !.tag = NoTag, !.ct = [t |-> "truncated", of |-> o.ct]]}
       [] cls = "wrap_mac0"          -> {[o EXCEPT !.form = "mac0", !.tag = [t |-> "forged"]]}
       [] cls = "retag"              -> {[o EXCEPT !.form = "mismatch"]}      \* tag number swapped, body unchanged
       [] cls = "drop_iv"            -> {[o EXCEPT !.iv = NoIV]}
@@ -128,14 +134,16 @@ Init ==
     /\ clock = [s \in Sessions |-> 1]
     /\ last = [act |-> "init"]
 
-(* the honest sender of message pos[s] protects it; iv is the message's own fresh IV *)
-Encrypt(s) ==
+(* the honest sender protects the next message (type ty) under a fresh IV; n identifies the message *)
+Rounds(s) == Cardinality({d \in delivered : d.sess = s /\ d.type = 69})
+Encrypt(s, ty) ==
     /\ failed[s] = 0 /\ flight[s] = NoMsg /\ pos[s] <= 71
-    /\ LET ty == pos[s]
-           iv == IV(s, ty)
-           pt == Pt(s, ty)
+    /\ ty = pos[s] \/ (pos[s] = 70 /\ ty = 68 /\ Rounds(s) < MaxRounds)     \* another service-info round
+    /\ LET n  == clock[s]
+           iv == IV(s, n)
+           pt == Pt(s, n)
            o  == Seal(cipher, s, iv, pt)
-       IN /\ flight' = [flight EXCEPT ![s] = [t |-> "msg", type |-> ty, pt |-> pt, obj |-> o, orig |-> o, mut |-> "none"]]
+       IN /\ flight' = [flight EXCEPT ![s] = [t |-> "msg", type |-> ty, n |-> n, pt |-> pt, obj |-> o, mut |-> "none"]]
           /\ protected' = protected \cup {[sess |-> s, type |-> ty, pt |-> pt, obj |-> o]}
           /\ onWire' = onWire \cup {[sess |-> s, type |-> ty, obj |-> o]}
           /\ last' = [act |-> "enc", sess |-> s, type |-> ty, dir |-> Dir(ty), form |-> o.form, iv |-> iv]
@@ -143,12 +151,12 @@ Encrypt(s) ==
     /\ UNCHANGED <<cipher, pos, delivered, failed, nmut>>
 
 (* the objects other sessions (same suite) send for the same message type *)
-Others(s, ty) == {Seal(cipher, s2, IV(s2, ty), Pt(s2, ty)) : s2 \in Sessions \ {s}}
+Others(s, n) == {Seal(cipher, s2, IV(s2, n), Pt(s2, n)) : s2 \in Sessions \ {s}}
 
 Wire(s, cls) ==
     /\ s \in AdvSessions /\ cls \in Classes /\ Applicable(cipher, cls)
     /\ flight[s] # NoMsg /\ flight[s].mut = "none" /\ nmut[s] < MaxMut
-    /\ \E o2 \in Mutants(cls, flight[s].obj, Others(s, flight[s].type)) :
+    /\ \E o2 \in Mutants(cls, flight[s].obj, Others(s, flight[s].n)) :
           flight' = [flight EXCEPT ![s].obj = o2, ![s].mut = cls]
     /\ nmut' = [nmut EXCEPT ![s] = @ + 1]
     /\ last' = [act |-> "wire", sess |-> s, mut |-> cls]
@@ -161,7 +169,7 @@ DecryptAs(s, r) ==
     /\ LET m == flight[s]
        IN IF r.v = "accept"
           THEN /\ delivered' = delivered \cup {[sess |-> s, type |-> m.type, pt |-> r.pt, obj |-> m.obj, at |-> clock[s]]}
-               /\ pos' = [pos EXCEPT ![s] = @ + 1]
+               /\ pos' = [pos EXCEPT ![s] = m.type + 1]
                /\ UNCHANGED failed
                /\ last' = [act |-> "dec", sess |-> s, outcome |-> "accept", same |-> (r.pt = m.pt), mut |-> m.mut]
           ELSE /\ failed' = [failed EXCEPT ![s] = clock[s]]
@@ -173,7 +181,7 @@ DecryptAs(s, r) ==
 
 Decrypt(s) == flight[s] # NoMsg /\ DecryptAs(s, Dec(cipher, s, flight[s].obj))
 
-Next == \E s \in Sessions : Encrypt(s) \/ Decrypt(s) \/ \E cls \in Classes : Wire(s, cls)
+Next == \E s \in Sessions : (\E ty \in 65..71 : Encrypt(s, ty)) \/ Decrypt(s) \/ \E cls \in Classes : Wire(s, cls)
 
 Spec == Init /\ [][Next]_vars
 
